@@ -127,9 +127,41 @@ def _run(ctx):
     ctx.ob(R, "next-prev-pair", okp, "previous sibling gets Next = this id, this item gets Prev = previous id, in the same branch", oc.where(),
            what="Next and Prev are no longer set as a consistent pair between consecutive siblings")
     par = have.get(b"Parent", [])
-    ctx.ob(R, "parent-link", len(par) == 1 and "parent.0" in par[0][0].oname(par[0][1], 3), "Parent = the parent's id", oc.where(), what="outline items are not linked to their parent's id")
+    # Parent = (a component of) a parameter of outline_child that is an object id, and the recursive call hands the id of the item
+    # it has just numbered to that parameter (by data flow: a tuple parameter and two separate parameters are the same thing)
+    okpar, howpar = False, "?"
+    if len(par) == 1 and par[0][0] is oc:
+        o = lib.origin_local(F, oc, par[0][1])
+        if o is not None and o[0] is oc and 1 <= o[1] <= oc.argc:
+            P = o[1]
+            comp = [e["f"] for e in o[2] if isinstance(e, dict) and "f" in e]
+            # the id of the item under construction: the key under which the dictionary that receives /Parent is stored
+            ins = [c for c in oc.calls if re.search(r"HashMap::<.*>::insert$", c.fn or "") and len(c.args) == 3]
+            recs = [c for c in oc.calls if c.local and c.name == oc.path]
+            okrec = bool(recs) and bool(ins)
+            for c in recs:
+                a = c.args[P - 1]
+                for f in comp:
+                    d = oc.def_rv(a)
+                    if d and d[2] == "rv" and d[3]["k"] == "agg" and f < len(d[3]["ops"]):
+                        a = d[3]["ops"][f]
+                    else:
+                        a = None
+                        break
+                oa = lib.origin_local(F, oc, a) if a is not None else None
+                if oa is None or not any((lib.origin_local(F, oc, i.args[1]) or (None, None, 1))[1] == oa[1] for i in ins):
+                    okrec = False
+            okpar = okrec
+            howpar = "parameter %s%s; the recursive call passes the new item's id there" % (oc.lname(P), "".join(".%d" % f for f in comp))
+    ctx.ob(R, "parent-link", okpar, "Parent = the parent's id (%s)" % howpar, oc.where(), what="outline items are not linked to their parent's id")
     cnt = [x for x in have.get(b"Count", []) if x[0] is oc]
-    ctx.ob(R, "count-is-children", len(cnt) == 1 and "c_count" in oc.oname(cnt[0][1], 3), "Count = number of children returned by the recursive call", oc.where(), what="Count is not the child count")
+    okcnt, howcnt = False, "?"
+    if len(cnt) == 1:
+        comp = lib.call_component(F, oc, cnt[0][1])
+        if comp is not None and comp[0] is oc:
+            howcnt = oc.sname(comp[1], 5)
+            okcnt = re.search(r"len\(", howcnt) is not None
+    ctx.ob(R, "count-is-children", okcnt, "Count = the child count returned by the recursive call (%s)" % howcnt, oc.where(), what="Count is not the child count")
     # zero-page fix-up: the full walk is not conditional on page state
     rf = F.fn("Document::recursive_fix_pages")
     rec = [c for c in rf.calls if c.local and c.name == rf.path]
